@@ -59,6 +59,8 @@ package main
 
 //@ func (*SFlow).sFlowWorker
 //@   names s wQuit reader msg mirror ok b d datagram err
+//@   callassert NewSFDecoder: arg1 == opts.SFlowTypeFilter
+//@   names s wQuit reader msg mirror ok b d datagram err
 //@   opt ownership datagram, mirror and encode buffers: released or handed-over buffers are not touched again; published values are fresh copies
 //@   requires opts != nil && opts.SFlowUDPSize >= 0
 //@   opt nonterminating
@@ -185,6 +187,20 @@ package main
 //@     invariant opts != nil && opts == old(opts) && mirrorMsgsSF(ch) && mirrorMsgsSF(ch4) && mirrorMsgsSF(ch6)
 
 // ---- configuration precedence (C17) --------------------------------------------------------------------
+// -sflow-type-filter: every comma-separated piece becomes one list entry, in order, with the parsed value unchanged
+// (C18: the filter the decoder gets is the list the user wrote)
+//@ func (*arrUInt32Flags).Set
+//@   names a value _ arr _ v v64 err
+//@   requires a != nil
+//@   ensures [parsed] err == nil ==> len(*a) == old(len(*a)) + len(splitU(value, ",")) && (forall k :: 0 <= k && k < len(splitU(value, ",")) ==> (*a)[old(len(*a)) + k] == uintVal(splitU(value, ",")[k], 10))
+//@   ensures [kept] forall k :: 0 <= k && k < old(len(*a)) ==> (*a)[k] == old((*a)[k])
+//@   ensures [rejects] err == nil ==> forall k :: 0 <= k && k < len(splitU(value, ",")) ==> uintOK(splitU(value, ",")[k], 10, 32)
+//@   modifies a
+//@   loop 1
+//@     invariant a != nil && arr == splitU(value, ",") && len(*a) == old(len(*a)) + range_i
+//@     invariant forall k :: 0 <= k && k < range_i ==> (*a)[old(len(*a)) + k] == uintVal(arr[k], 10) && uintOK(arr[k], 10, 32)
+//@     invariant forall k :: 0 <= k && k < old(len(*a)) ==> (*a)[k] == old((*a)[k])
+
 // >>> generated by `govc -gen-options` from type Options and flagSet; do not edit by hand
 // sources of a setting: the command line (by flag name), the configuration file and the environment (by yaml key)
 //@ uninterp cliHas(key string) bool
